@@ -228,55 +228,65 @@ def gen_norm2(rng):
     return case
 
 
+NONLEADING = [(1,), (2,), (3,), (1, 2), (0, 2), (1, 3), (2, 3), (0, 3), (0, 1, 3), (1, 2, 3), (0, 2, 3)]
+
+
+def group_ids(shape, axes):
+    """group of every cell (row-major) when reducing over `axes`: ravel of the remaining coordinates"""
+    rem = [a for a in range(len(shape)) if a not in axes]
+    idx = np.indices(shape)
+    if not rem:
+        return np.zeros(int(np.prod(shape)), dtype=int), 1
+    g = np.ravel_multi_index([idx[a] for a in rem], [shape[a] for a in rem]).reshape(-1)
+    return g, int(np.prod([shape[a] for a in rem]))
+
+
 def gen_dist(rng):
+    lead = rng.random() < 0.75
     while True:
-        shape = [rng.randrange(1, 5), rng.randrange(1, 5), rng.randrange(1, 5), rng.choice([1, 2, 3])]
-        k = rng.choice([1, 2, 2, 2, 3, 4])
-        lead = int(np.prod(shape[:k]))
-        if lead >= 3:
+        if lead:
+            shape = [rng.randrange(1, 5), rng.randrange(1, 5), rng.randrange(1, 5), rng.choice([1, 2, 3])]
+            axes = list(range(rng.choice([1, 2, 2, 2, 3, 4])))
+        else:
+            # extents 2..3: coincidences between the extents of different axes are common (then broadcasting does not raise)
+            shape = [rng.randrange(2, 4) for _ in range(4)]
+            axes = list(rng.choice(NONLEADING))
+        if int(np.prod([shape[a] for a in axes])) >= 3:
             break
     F, P, N, D = shape
-    G = int(np.prod(shape[k:]))
+    grp, G = group_ids(shape, axes)
     backend = rng.choice(["np64", "np32", "tf32"])
     s = 10 ** rng.uniform(-1, 2)
     mcls = rng.choice(["full", "some", "some", "group-missing"])
     mask = gen_mask(rng, F, P, N, "some" if mcls != "full" else "full")
     off = [r32(rng.uniform(-5, 5) * s) for _ in range(G)]
-    data = [0.0] * (F * P * N * D)
-    # group of flat cell index c (over F,P,N,D) is c mod G; give each group its own offset and spread
-    for c in range(len(data)):
-        data[c] = r32(off[c % G] + rng.uniform(-1, 1) * s)
-    m = np.array(mask).reshape(F, P, N)
-    cellmask = np.repeat(m[..., None], D, axis=-1).reshape(-1)
-    arr = np.array(data)
+    data = [r32(off[grp[c]] + rng.uniform(-1, 1) * s) for c in range(F * P * N * D)]
+
+    def cellmask():
+        return np.repeat(np.array(mask).reshape(F, P, N)[..., None], D, axis=-1).reshape(-1)
+
     # repair: every group has no observation at all or at least two that are >= 0.2 s apart
     for g in range(G):
-        idx = [c for c in range(len(data)) if c % G == g]
-        obs = [c for c in idx if not cellmask[c]]
         if mcls == "group-missing" and g == 0:
             continue
-        if len(obs) < 2 or (max(arr[obs]) - min(arr[obs])) < 0.2 * s:
-            # un-mask the points of the first two cells of the group and spread them
+        idx = [c for c in range(len(data)) if grp[c] == g]
+        cm_ = cellmask()
+        obs = [data[c] for c in idx if not cm_[c]]
+        if len(obs) < 2 or (max(obs) - min(obs)) < 0.2 * s:
             for c in idx[:2]:
-                pt = c // D
-                mask[pt] = 0
-            m = np.array(mask).reshape(F, P, N)
-            cellmask = np.repeat(m[..., None], D, axis=-1).reshape(-1)
+                mask[c // D] = 0
             data[idx[0]] = r32(off[g] - 0.5 * s)
             data[idx[1]] = r32(off[g] + 0.5 * s)
-            arr = np.array(data)
     if mcls == "group-missing":
-        # mask every point that has a cell in group 0 (only possible when the group does not cover every point)
         for c in range(len(data)):
-            if c % G == 0:
-                mask[c // D] = 1
-        m = np.array(mask).reshape(F, P, N)
-        cellmask = np.repeat(m[..., None], D, axis=-1).reshape(-1)
-        for g in range(G):
-            obs = [c for c in range(len(data)) if c % G == g and not cellmask[c]]
-            if len(obs) == 1 or (len(obs) >= 2 and (max(arr[obs]) - min(arr[obs])) < 0.2 * s):
-                mcls = "degenerate"
-    return {"kind": "dist", "backend": backend, "shape": shape, "k": k, "data": data, "mask": mask, "mcls": mcls, "s": s}
+            if grp[c] == 0:
+                mask[c // D] = 1       # the points that have a cell in group 0
+    cm_ = cellmask()
+    for g in range(G):
+        obs = [data[c] for c in range(len(data)) if grp[c] == g and not cm_[c]]
+        if len(obs) == 1 or (len(obs) >= 2 and (max(obs) - min(obs)) < 0.2 * s):
+            mcls = "degenerate"
+    return {"kind": "dist", "backend": backend, "shape": shape, "axes": axes, "lead": lead, "data": data, "mask": mask, "mcls": mcls, "s": s}
 
 
 def v_sub(a, b):
@@ -384,10 +394,11 @@ class C13(common.Prop):
     RUNNER = "c13"
     RUNNER_FLOATS = True
     ALLOWED_AXIOMS = set(common.REALS_AXIOMS)
-    MODEL_FILES = ["base/Num.v", "model/C13_Normalize.v", "model/C13_Norm3d.v", "model/C13_Lookup.v", "model/C13_Run.v"]
+    MODEL_FILES = ["base/Num.v", "base/Tensor.v", "model/C13_Normalize.v", "model/C13_Axes.v", "model/C13_Norm3d.v", "model/C13_Lookup.v", "model/C13_Run.v"]
     RULE = ("six structured streams: norm2 (Pose.normalize; F,P<=4, 2..8 points, D 1..4; NumPy float64 / float32 and TensorFlow float32 "
             "bodies; reference points given or looked up by format; masks: none / random / reference points missing in some rows / never "
-            "jointly observed), dist (normalize_distribution + unnormalize_distribution over every leading block of axes, per-group offsets), "
+            "jointly observed), dist (normalize_distribution + unnormalize_distribution over every leading block of axes, per-group offsets; "
+            "25% over other axis tuples on extents 2..3, where the call either raises or silently misaligns), "
             "norm3d (PoseNormalizer; random plane / line choices incl. a line starting off the plane, float64 / float32), hands3d "
             "(normalize_hands_3d on holistic / openpose / openpose_135-shaped headers), lookup (headers incl. unknown format, missing "
             "component / point, duplicate names, another format's component first), zrot (SciPy rotation hypothesis); every numeric case "
@@ -407,8 +418,9 @@ class C13(common.Prop):
                    "(cos, sin) = (-vy, -vx) / sqrt(vx^2 + vy^2): a Section hypothesis of the 3-D theorems, sampled by the zrot stream",
                    "the mask of a pose body is per point (stacked from the confidence), not per coordinate",
                    "numpy.ma / tf reductions compute the masked mean (sum of observed / count) and population deviation as modelled",
-                   "normalize_distribution: axis is a leading block of axes (for other axis tuples the returned statistics do not broadcast "
-                   "back: the call raises unless extents coincide); component names are unique where get_components is involved"]
+                   "normalize_distribution theorems: the statistics meet the cells of their own group (true for a leading block of axes, "
+                   "key i = i mod G; checked against the axis model of model/C13_Axes.v on every such case); for other axis tuples see "
+                   "distribution_nonleading_refuted; component names are unique where get_components is involved"]
 
     # ---- tie (a)
     def translate(self):
@@ -434,7 +446,7 @@ class C13(common.Prop):
                       pose_normalization_info=pose_normalization_info, PoseNormalizer=PoseNormalizer)
 
     def gen_cases(self, rng, tier):
-        n = 40 if tier == "quick" else 700
+        n = 150 if tier == "quick" else 4000
         for _ in range(n):
             yield gen_norm2(rng)
             yield gen_norm2(rng)
@@ -452,7 +464,7 @@ class C13(common.Prop):
         if k == "norm2":
             return (k, case["backend"], "D%d" % case["shape"][3], case["mcls"], case.get("hedge", "explicit"))
         if k == "dist":
-            return (k, case["backend"], "k%d" % case["k"], case["mcls"])
+            return (k, case["backend"], ("lead%d" % len(case["axes"])) if case["lead"] else "nonleading", case["mcls"])
         if k == "norm3d":
             return (k, case["dtype"], case["mcls"], case["lcls"])
         if k == "hands3d":
@@ -527,9 +539,8 @@ class C13(common.Prop):
         arr = np.array(case["data"], dtype=np.float64).reshape(F, P, N, D)
         mask = np.array(case["mask"], dtype=bool).reshape(F, P, N)
         pose = self.m["Pose"](self.header(None, N, D), self.body(case["backend"], case["shape"], arr, mask))
-        k = case["k"]
         try:
-            mu, std = pose.normalize_distribution(axis=tuple(range(k)))
+            mu, std = pose.normalize_distribution(axis=tuple(case["axes"]))
             v1, m1 = self.dump(case["backend"], pose.body.data)
             mv, mm = self.dump(case["backend"], mu)
             sv, sm = self.dump(case["backend"], std)
@@ -644,12 +655,24 @@ class C13(common.Prop):
             return ("ok", out)
         if k == "dist":
             F, P, N, D = case["shape"]
-            G = int(np.prod(case["shape"][case["k"]:]))
             cells = [[int(case["mask"][c // D]), f2b(x)] for c, x in enumerate(case["data"])]
-            t = runner.ask([2, G, cells])
             unc = lambda l: {"mask": [int(c[0]) for c in l], "val": [0.0 if c[0] else canon_float(b2f(c[1])) for c in l]}
-            t2 = runner.ask([3, G, t[0], t[1], t[2]])
-            return ("ok", {"normalized": unc(t[0]), "mu": unc(t[1]), "std": unc(t[2]), "restored": unc(t2)})
+            # any axis tuple: grouping and broadcasting computed by the model from shape and axis
+            r8 = runner.ask([8, list(case["shape"]), list(case["axes"]), cells])
+            if r8[0] != 1:
+                return ("err", "model-broadcast")
+            t = r8[1]
+            t2 = runner.ask([9, list(case["shape"]), list(case["axes"]), t[0], t[1], t[2]])
+            out = {"normalized": unc(t[0]), "mu": unc(t[1]), "std": unc(t[2]), "restored": unc(t2)}
+            if case["lead"]:
+                # a leading block of axes is the grouping i mod G the theorems are instantiated with: both routes must agree
+                G = int(np.prod(case["shape"][len(case["axes"]):]))
+                u = runner.ask([2, G, cells])
+                u2 = runner.ask([3, G, u[0], u[1], u[2]])
+                if [u[0], u[1], u[2], u2] != [t[0], t[1], t[2], t2]:
+                    return ("ok", {"normalized": {"mask": [], "val": []}, "mu": {"mask": [], "val": []}, "std": {"mask": [], "val": []},
+                                   "restored": {"mask": [], "val": []}, "axis-model-mismatch": True})
+            return ("ok", out)
         if k == "norm3d":
             F, P, N = case["shape"]
             t = runner.ask([4] + list(case["plane"]) + list(case["line"]) + [f2b(case["size"]),
@@ -729,6 +752,8 @@ class C13(common.Prop):
         if k == "zrot":
             return None if close(a, b, 1e-12) else "rotation matrix differs from the hypothesis by %.3g" % maxdiff(a, b)
         if k == "dist":
+            if b.get("axis-model-mismatch"):
+                return "model: grouping by i mod G and the axis model (shape, axis) disagree on a leading block of axes"
             for part in ("normalized", "mu", "std", "restored"):
                 if a[part]["mask"] != b[part]["mask"]:
                     if not self.wellcond(case):
@@ -803,22 +828,24 @@ class C13(common.Prop):
 
     def oracle_dist(self, case, out, keep):
         if out[0] == "err":
-            return {"what": "normalize_distribution raised %s" % out[1], "clause": "raises"}
+            # a loud failure is allowed for axis tuples whose statistics cannot be broadcast back
+            return {"what": "normalize_distribution raised %s" % out[1], "clause": "raises"} if case["lead"] else None
         if not self.wellcond(case):
             return None
         F, P, N, D = case["shape"]
-        k = case["k"]
         v1, m1, v2, m2 = keep
+        ax = tuple(case["axes"])
         inmask = np.repeat(np.array(case["mask"], dtype=bool).reshape(F, P, N)[..., None], D, axis=-1)
+        if v1.shape != inmask.shape:
+            return {"what": "normalize_distribution over axes %s changed the shape of the data to %s" % (ax, list(v1.shape)), "clause": "dist-shape"}
         if not (np.array_equal(m1, inmask) and np.array_equal(m2, inmask)):
             return {"what": "normalize_distribution / unnormalize_distribution changed the mask", "clause": "mask"}
         tol = self.tol(case) * 50
-        ax = tuple(range(k))
         cnt = (~m1).sum(axis=ax)
         w = np.where(m1, 0.0, v1)
         with np.errstate(all="ignore"):
             mean = w.sum(axis=ax) / cnt
-            dev = np.sqrt((np.where(m1, 0.0, (v1 - mean) ** 2)).sum(axis=ax) / cnt)
+            dev = np.sqrt((np.where(m1, 0.0, (v1 - np.expand_dims(mean, ax)) ** 2)).sum(axis=ax) / cnt)
         ok = cnt > 0
         if np.abs(mean[ok]).max(initial=0) > tol:
             return {"what": "mean over axes %s after normalize_distribution is %.3g" % (ax, float(np.abs(mean[ok]).max())), "clause": "dist-mean"}
@@ -949,6 +976,8 @@ class C13(common.Prop):
             return "norm3d-rotation-invariance"
         if k == "norm3d" and case.get("mcls") == "normal-along-x":
             return "norm3d-normal-along-x"
+        if k == "dist" and not case.get("lead", True):
+            return "dist-non-leading-axes"       # mean / deviation / mask / restore: all consequences of the misaligned broadcast
         b = case.get("backend") or case.get("dtype") or ""
         return "%s-%s-%s" % (k, clause, b)
 
